@@ -58,16 +58,15 @@ example : inInterval civilLt (some ⟨2000, 2, 29, 0, 0, 0, 0⟩) (some ⟨2000,
 
 /-! ### partial dates -/
 
-/-- **A partial date stands for a period**: whatever `DATETIME._parse_datestring` accepts (with a
-    year ≥ 1) is prefix-shaped and in range; `floor` and `ceil` succeed, are valid datetimes, and a
+/-- **A partial date stands for a period**: whatever `DATETIME._parse_datestring` accepts (year 0000
+    is rejected since the `fix:` commit) is prefix-shaped and in range; `floor` and `ceil` succeed, are valid datetimes, and a
     valid datetime lies in `[floor, ceil]` iff it agrees with the parsed date on every specified
     attribute (month lengths and leap years included). -/
-theorem partial_date_period (cs : List Nat) (p : ADT) (hp : parseDatestring cs = .ok p)
-    (h1 : ∀ y, p.year = some y → 1 ≤ y) :
+theorem partial_date_period (cs : List Nat) (p : ADT) (hp : parseDatestring cs = .ok p) :
     p.prefixShaped ∧
     ∃ f cl, p.floor = .ok f ∧ p.ceil = .ok cl ∧ f.valid ∧ cl.valid ∧ p.agrees f ∧ p.agrees cl ∧
       ∀ c : Civil, c.valid → ((civilLt c f = false ∧ civilLt cl c = false) ↔ p.agrees c) :=
-  ⟨(parseDatestring_wf cs p hp).1, floor_ceil p (parseDatestring_wf cs p hp) h1⟩
+  ⟨(parseDatestring_wf cs p hp).1, floor_ceil p (parseDatestring_wf cs p hp)⟩
 
 /-- "200002" is February 2000: 1st 00:00:00.000000 … 29th 23:59:59.999999. -/
 example : parseDatestring [2, 0, 0, 0, 0, 2] = .ok ⟨some 2000, some 2, none, none, none, none, none⟩ ∧
@@ -82,7 +81,7 @@ example : parseDatestring [2, 0, 0, 0, 0, 2] = .ok ⟨some 2000, some 2, none, n
     (`t` is later than all of them), an inclusive start takes the period in (`t` is not before all
     of them); symmetrically for the end. -/
 theorem range_bound_period (cs : List Nat) (p : ADT) (hp : parseDatestring cs = .ok p)
-    (h1 : ∀ y, p.year = some y → 1 ≤ y) (lowerSide excl : Bool) :
+    (lowerSide excl : Bool) :
     ∃ c : Civil, c.valid ∧ p.agrees c ∧ rangeBound cs lowerSide excl = .ok (civilToLong c) ∧
       ∀ t : Civil, t.valid →
         (inInterval civilLt (if lowerSide then some c else none) (if lowerSide then none else some c)
@@ -93,7 +92,7 @@ theorem range_bound_period (cs : List Nat) (p : ADT) (hp : parseDatestring cs = 
            else
             (if excl then ∀ c', c'.valid → p.agrees c' → civilLt t c' = true
              else ∃ c', c'.valid ∧ p.agrees c' ∧ civilLt c' t = false))) := by
-  obtain ⟨f, cl, hf, hcl, vf, vcl, af, acl, hper⟩ := floor_ceil p (parseDatestring_wf cs p hp) h1
+  obtain ⟨f, cl, hf, hcl, vf, vcl, af, acl, hper⟩ := floor_ceil p (parseDatestring_wf cs p hp)
   have rb : ∀ (c : Civil), (if (lowerSide != excl) = true then p.floor else p.ceil) = .ok c →
       rangeBound cs lowerSide excl = .ok (civilToLong c) := by
     intro c hc
@@ -143,13 +142,13 @@ theorem range_bound_period (cs : List Nat) (p : ADT) (hp : parseDatestring cs = 
 example : rangeBound [2, 0, 0, 0] true true = .ok (civilToLong ⟨2000, 12, 31, 23, 59, 59, 999999⟩) ∧
     rangeBound [2, 0, 0, 0] true false = .ok (civilToLong ⟨2000, 1, 1, 0, 0, 0, 0⟩) := by decide
 
-/-- **`DATETIME.parse_range` as a whole**: with both bound strings parseable (years ≥ 1) the result
+/-- **`DATETIME.parse_range` as a whole**: with both bound strings parseable the result
     is `NumericRange(a, b, startexcl, endexcl)` whose compiled query matches a document holding the
     datetime `t` iff `t` lies in the interval of datetimes `lo … hi`, where `lo`/`hi` are the
     period ends `range_bound_period` describes; two absent bounds give `Every`. -/
 theorem parse_range_datetime (start end_ : Option (List Nat)) (sx ex : Bool) (t : Civil) (ht : t.valid)
-    (hs : ∀ cs, start = some cs → ∃ p, parseDatestring cs = .ok p ∧ ∀ y, p.year = some y → 1 ≤ y)
-    (he : ∀ cs, end_ = some cs → ∃ p, parseDatestring cs = .ok p ∧ ∀ y, p.year = some y → 1 ≤ y) :
+    (hs : ∀ cs, start = some cs → ∃ p, parseDatestring cs = .ok p)
+    (he : ∀ cs, end_ = some cs → ∃ p, parseDatestring cs = .ok p) :
     (start = none ∧ end_ = none ∧ parseRange start end_ sx ex = .ok none) ∨
     ∃ (lo hi : Option Civil) (subs : List Sub) (ts : List (List Nat)),
       (∀ c, lo = some c → c.valid) ∧ (∀ c, hi = some c → c.valid) ∧
@@ -162,7 +161,7 @@ theorem parse_range_datetime (start end_ : Option (List Nat)) (sx ex : Bool) (t 
       (matchesDoc subs ts = true ↔ inInterval civilLt lo hi sx ex t = true) := by
   -- the datetime each present bound stands for
   have bound : ∀ (o : Option (List Nat)) (lower excl : Bool),
-      (∀ cs, o = some cs → ∃ p, parseDatestring cs = .ok p ∧ ∀ y, p.year = some y → 1 ≤ y) →
+      (∀ cs, o = some cs → ∃ p, parseDatestring cs = .ok p) →
       ∃ b : Option Civil, (∀ c, b = some c → c.valid) ∧ b.isSome = o.isSome ∧
         (∀ cs c, o = some cs → b = some c → rangeBound cs lower excl = .ok (civilToLong c)) := by
     intro o lower excl ho
@@ -172,8 +171,8 @@ theorem parse_range_datetime (start end_ : Option (List Nat)) (sx ex : Bool) (t 
       · intro c hc; cases hc
       · intro cs c hcs; cases hcs
     | some cs =>
-      obtain ⟨p, hp, h1⟩ := ho cs rfl
-      obtain ⟨c, vc, _, hrb, _⟩ := range_bound_period cs p hp h1 lower excl
+      obtain ⟨p, hp⟩ := ho cs rfl
+      obtain ⟨c, vc, _, hrb, _⟩ := range_bound_period cs p hp lower excl
       refine ⟨some c, ?_, rfl, ?_⟩
       · intro c' hc'; injection hc' with hc'; subst hc'; exact vc
       · intro cs' c' hcs' hc'
@@ -217,22 +216,21 @@ theorem parse_range_datetime (start end_ : Option (List Nat)) (sx ex : Bool) (t 
               Except.pure, Except.map]
 
 /-- Hypotheses satisfiable: `[200002 TO 2001}`. -/
-example : (∃ p, parseDatestring [2, 0, 0, 0, 0, 2] = .ok p ∧ ∀ y, p.year = some y → 1 ≤ y) ∧
+example : (∃ p, parseDatestring [2, 0, 0, 0, 0, 2] = .ok p) ∧
     parseRange (some [2, 0, 0, 0, 0, 2]) (some [2, 0, 0, 1]) false true =
       .ok (some (some (civilToLong ⟨2000, 2, 1, 0, 0, 0, 0⟩), some (civilToLong ⟨2001, 1, 1, 0, 0, 0, 0⟩))) := by
-  refine ⟨⟨⟨some 2000, some 2, none, none, none, none, none⟩, by decide, ?_⟩, by decide⟩
-  intro y hy; injection hy with hy; omega
+  exact ⟨⟨⟨some 2000, some 2, none, none, none, none, none⟩, by decide⟩, by decide⟩
 
 /-- **`DATETIME.parse_query` of a partial date**: the query is the inclusive range
     `[floor, ceil]`, which matches exactly the documents whose datetime agrees with the partial
     date on every specified attribute. -/
 theorem parse_query_datetime (cs : List Nat) (p : ADT) (hp : parseDatestring cs = .ok p)
-    (h1 : ∀ y, p.year = some y → 1 ≤ y) (hamb : p.ambiguous = true) (t : Civil) (ht : t.valid) :
+    (hamb : p.ambiguous = true) (t : Civil) (ht : t.valid) :
     ∃ f cl subs ts, parseQuery cs = .ok (.range (civilToLong f) (civilToLong cl)) ∧
       compileInt 8 true 8 (some (civilToLong f)) (some (civilToLong cl)) false false = .ok subs ∧
       indexTerms 8 8 (toSortableInt 64 true (civilToLong t)).toNat = .ok ts ∧
       (matchesDoc subs ts = true ↔ p.agrees t) := by
-  obtain ⟨f, cl, hf, hcl, vf, vcl, af, acl, hper⟩ := floor_ceil p (parseDatestring_wf cs p hp) h1
+  obtain ⟨f, cl, hf, hcl, vf, vcl, af, acl, hper⟩ := floor_ceil p (parseDatestring_wf cs p hp)
   obtain ⟨subs, ts, h1', h2, h3⟩ := range_query_civil (some f) (some cl) false false t
     (by intro c hc; injection hc with hc; subst hc; exact vf)
     (by intro c hc; injection hc with hc; subst hc; exact vcl) ht
@@ -245,6 +243,79 @@ theorem parse_query_datetime (cs : List Nat) (p : ADT) (hp : parseDatestring cs 
 example : parseQuery [2, 0, 0, 0, 0, 2] =
     .ok (.range (civilToLong ⟨2000, 2, 1, 0, 0, 0, 0⟩) (civilToLong ⟨2000, 2, 29, 23, 59, 59, 999999⟩)) ∧
     parseQuery [2, 0, 0, 1, 0, 2, 2, 9] = .ok .error := by decide
+
+/-- **`DATETIME.parse_query` never raises** (after the `fix:` commit that makes `_parse_datestring`
+    reject year 0000): an unparseable string gives the error query, a partial date the range
+    `[floor, ceil]`, a full timestamp the term of that instant — `floor()`/`ceil()`, which are
+    called outside the `try`, cannot fail on a parsed date. -/
+theorem parse_query_total (cs : List Nat) : ∃ q, parseQuery cs = .ok q := by
+  unfold parseQuery
+  cases hp : parseDatestring cs with
+  | error e => exact ⟨.error, rfl⟩
+  | ok p =>
+    obtain ⟨f, cl, hf, hcl, _⟩ := floor_ceil p (parseDatestring_wf cs p hp)
+    simp only
+    by_cases hamb : p.ambiguous = true
+    · exact ⟨.range (civilToLong f) (civilToLong cl),
+        by simp only [hamb, if_true, hf, hcl, bind, Except.bind, pure, Except.pure]⟩
+    · exact ⟨.term (civilToLong f), by simp [hamb, hf, bind, Except.bind, pure, Except.pure]⟩
+
+/-- Year 0000 is now an unparseable date, not an exception out of `parse_query`. -/
+example : parseQuery [0, 0, 0, 0] = .ok .error ∧ parseDatestring [0, 0, 0, 0, 0, 1] = .error .valueError := by
+  decide
+
+/-! ### `long_to_datetime` -/
+
+/-- **`long_to_datetime ∘ datetime_to_long = id`** on every valid datetime, through the inverse
+    calendar (`_ord2ymd`: 400/100/4/1-year cycles and the month estimate) — no longer trusted. -/
+theorem datetime_roundtrip (c : Civil) (hc : c.valid) : longToCivil (civilToLong c) = some c := by
+  have hn := civilToTD_normal c hc
+  have e : longToTD (civilToLong c) = civilToTD c := datetime.1 _ hn
+  have hb := ord_bounds c hc
+  have hm := ord_le_max c hc
+  have hy := ord2ymd_ordinal c hc
+  obtain ⟨_, _, _, _, _, _, a7, a8, a9, a10⟩ := hc
+  unfold longToCivil
+  rw [e]
+  simp only [civilToTD]
+  have hcond : (0 : Int) ≤ (ordinal c.year c.month c.day : Int) - 1 ∧
+      (ordinal c.year c.month c.day : Int) - 1 ≤ 3652058 := by constructor <;> omega
+  refine (if_pos hcond).trans ?_
+  · have e1 : ((ordinal c.year c.month c.day : Int) - 1).toNat + 1 = ordinal c.year c.month c.day := by omega
+    rw [e1, hy]
+    simp only [Int.toNat_natCast]
+    have f1 : (c.hour * 3600 + c.minute * 60 + c.second) / 3600 = c.hour := by omega
+    have f2 : (c.hour * 3600 + c.minute * 60 + c.second) / 60 % 60 = c.minute := by omega
+    have f3 : (c.hour * 3600 + c.minute * 60 + c.second) % 60 = c.second := by omega
+    rw [f1, f2, f3]
+
+example : longToCivil (civilToLong ⟨2000, 2, 29, 23, 59, 59, 999999⟩) = some ⟨2000, 2, 29, 23, 59, 59, 999999⟩ ∧
+    ord2ymd 730179 = (2000, 2, 29) ∧ ord2ymd 3652059 = (9999, 12, 31) ∧ ord2ymd 1 = (1, 1, 1) ∧
+    longToCivil (-1) = none := by decide
+
+/-! ### BOOLEAN -/
+
+/-- **BOOLEAN fields match exactly** (after the `fix:` commit): a document indexed with the value
+    `v` owns one term; the query `parse_query(q)` (`q ≠ "*"`) matches it iff `v` and `q` have the same
+    truth value under the one reading `_obj_to_bool` — for bools, objects, the true/false words and
+    every other string; `"*"` matches every document that has the field. -/
+theorem boolean_match (v q : BIn) :
+    (boolIndex v).length = 1 ∧
+    (q ≠ .star → (boolParseQuery q).matchesTerms (boolIndex v) = (objToBool v == objToBool q)) ∧
+    (boolParseQuery .star).matchesTerms (boolIndex v) = true := by
+  refine ⟨rfl, ?_, rfl⟩
+  intro hq
+  cases v <;> cases q <;> first | exact absurd rfl hq | (rename_i a b; cases a <;> cases b <;> decide) |
+    (rename_i a; cases a <;> decide) | decide
+
+/-- **The pinned tree disagreed with itself**: a string outside the word lists ("garbage") was
+    indexed under `f` but queried as `t` — the document never matched its own value. -/
+theorem boolean_old_disagrees :
+    (boolParseQuery (.strOther true)).matchesTerms [boolToBytesOld (.strOther true)] = false ∧
+    (boolParseQuery (.strOther true)).matchesTerms (boolIndex (.strOther true)) = true := by decide
+
+example : boolToBytes .strTrue = [116] ∧ boolToBytes (.strOther false) = [102] ∧
+    boolParseQuery .star = .every ∧ boolParseQuery .strFalse = .term false := by decide
 
 /-! ### column values of `sortable=True` fields -/
 
